@@ -339,6 +339,17 @@ func c07Run(rep *verifrep.R, dir string, plan *c07Plan, sample bool) {
 	}
 	if plan.SnapAfterRestart {
 		last := plan.Entries[len(plan.Entries)-1]
+		if plan.Seed%2 != 0 {
+			// first a snapshot that keeps every entry (the marked one included) in its tail, and
+			// a restore from it: the node's log copy is rebuilt from that tail
+			if _, _, err := f.snapshot(last.Id, plan.Entries[0].UnixNano, -1); err != nil {
+				viol("snapshot-error", err.Error())
+			}
+			if _, err := f.restoreLatest(); err != nil {
+				viol("restore-error", err.Error())
+			}
+			rep.Obs("plans-with-two-snapshot-generations-after-the-restart", 1)
+		}
 		if _, _, err := f.snapshot(last.Id, last.UnixNano+int64(3*time.Hour), -1); err != nil {
 			viol("snapshot-error", err.Error())
 		}
